@@ -273,7 +273,18 @@ Burn(n) == Sample => \A i \in 1..n : RandomElement(1..2) \in {1, 2}
 
 Init == prog = <<>> /\ den = <<>> /\ lat = <<>> /\ kind = "" /\ bucket = 0
 
-PushLeaf(l) == Push([a |-> "Leaf", rule |-> l.rule, cs |-> LeafContours(l), o |-> 1], LeafDen(l), LeafLat(l))
+(* which constructor the driver uses ("however constructed"): the Polygons / SimplePolygon overloads of     *)
+(* CrossSection(..) and CrossSection::EvenOdd(..); a counter-clockwise lattice rectangle read by the        *)
+(* Positive rule may also come from CrossSection(Rect) or from Square(size).Translate(corner) (a leaf with  *)
+(* a pending lazy transform).  The choice is a function of the leaf, not a further dimension of the search. *)
+LeafVia(l) ==
+  IF Len(l.ids) # 1 THEN "polys"
+  ELSE IF Cat[l.ids[1]] \in Rects /\ l.rule = "Positive"
+       THEN << "rect", "square", "simple", "polys" >>[1 + (l.ids[1] % 4)]
+       ELSE << "simple", "polys" >>[1 + (l.ids[1] % 2)]
+PushLeaf(l) == Push([a |-> "Leaf", rule |-> l.rule, cs |-> LeafContours(l), via |-> LeafVia(l),
+                    o |-> IF LeafVia(l) = "square" THEN 0 ELSE 1],      \* (the translated Square stays lazy)
+                   LeafDen(l), LeafLat(l))
 Leaf == /\ kind = "Leaf" /\ Burn(bucket) /\ kind' = "" /\ bucket' = 0 /\ Room /\ NLeaves < MaxLeaf
         /\ \/ \E i \in Pool({ ii \in FamSingles(LeafFam) : ii % NB = bucket }), r \in Pool(FamRules(LeafFam, 1)) :
                 PushLeaf([ids |-> <<i>>, rule |-> r])
@@ -282,12 +293,14 @@ Leaf == /\ kind = "Leaf" /\ Burn(bucket) /\ kind' = "" /\ bucket' = 0 /\ Room /\
                 (Sample \/ i <= j) /\ PushLeaf([ids |-> PairIds(Min2(i, j), Max2(i, j)), rule |-> r])
            \/ \E s \in Pool(StairParams(LeafFam)), r \in Pool(Rules), rv \in Pool({FALSE, TRUE}) :
                 LET c == IF rv THEN Rev(StairContour(s)) ELSE StairContour(s) IN
-                Push([a |-> "Leaf", rule |-> r, cs |-> <<c>>, name |-> StairName(s), o |-> 1],
+                Push([a |-> "Leaf", rule |-> r, cs |-> <<c>>, via |-> "polys", name |-> StairName(s), o |-> 1],
                      IF rv /\ r = "Positive" THEN {} ELSE StairPix(s), TRUE)
 
 Bool == /\ kind = "Bool" /\ Burn(bucket) /\ kind' = "" /\ UNCHANGED bucket /\ Room /\ Ready
         /\ \E x \in Pool(Steps), y \in Pool(Steps), op \in Pool(OpNames) :
-             Push([a |-> "Bool", op |-> op, x |-> x, y |-> y, sym |-> Symmetric(op), o |-> 1],
+             Push([a |-> "Bool", op |-> op, x |-> x, y |-> y, sym |-> Symmetric(op), o |-> 1,
+                   \* spelling of the call: x.Boolean(y, op) | x + y, x - y, x ^ y | t = x; t += y ...
+                   form |-> << "method", "operator", "assign" >>[1 + ((x + y + Len(prog)) % 3)]],
                   BoolSem(op, den[x], den[y]), lat[x] /\ lat[y])
 
 (* BatchBoolean over 0, 1 or 3 earlier steps (repetition allowed) *)
